@@ -28,6 +28,8 @@ def generate(tier, rng):
             if len(seen) % 4 == 0: out.append("PFX %s %s" % (key, t))
     d = tg.parse_desc("refcell(seq(u8))")
     for _ in range(20): out.append("RCB %s" % tg.show(d, tg.rust_order(d, tg.gen_value(d, rng))))
+    for raw in (b"/srv/caf\xe9.txt", b"\xff", b"a\x80b", b"/ok/path", b"caf\xc3\xa9", b"\xed\xa0\x80", b"\xf4\x90\x80\x80", b"x" * 30 + b"\xc3"):
+        out.append("PNU %s" % hexs(raw))
     # large values: element counts and byte lengths around 2^16 (3-byte -> 5-byte heads; counters that are narrower than usize)
     def big(key, v):
         d = tg.parse_desc(key)
